@@ -299,6 +299,8 @@ def run_units(mod, units, seed, tier, budget_s, only=None) -> Ctx:
                 ctx.counters['harness_errors'] += 1
                 if ctx.counters['harness_errors'] <= 3:
                     sys.stderr.write(f'[gv] harness error in unit {unit}:\n{tb}\n')
+        if sys.flags.optimize:
+            ctx.count('units_run_with_assertions_stripped(python -O)')
         mon_ = getattr(mod, '_mon', None)
         if mon_ is not None and hasattr(mon_, 'end_of_unit'):
             mon_.end_of_unit(ctx)
@@ -447,10 +449,13 @@ def main(argv=None) -> int:
             for sh in range(nshards):
                 out = os.path.join(tmpdir, f'shard{sh}.json')
                 log = open(os.path.join(tmpdir, f'shard{sh}.log'), 'w')
+                # interpreter configuration is part of the workload: every third shard runs with assertions
+                # stripped (python -O), where the library's `assert` statements (and anything hidden in them) vanish
+                env_sh = dict(env, PYTHONOPTIMIZE='1') if sh % 3 == 2 and not os.environ.get('GV_NO_OPTIMIZE') else env
                 p = subprocess.Popen(
                     [sys.executable, '-m', 'gv.worker', pid, tier, str(seed), str(sh), str(nshards), out, str(budget)],
                     cwd=VERIF,
-                    env=env,
+                    env=env_sh,
                     stdout=log,
                     stderr=subprocess.STDOUT,
                 )
